@@ -73,6 +73,33 @@ def docref_specs(vec):
             ('nsc.stone', 'namespace nsc\n\nstruct Tc\n    k1 Int32\n')]
 
 
+ANN_TYPES = {'String': 'String', 'Int32': 'Int32', 'Float64': 'Float64', 'Boolean': 'Boolean', 'Bytes': 'Bytes',
+             'ListString': 'List(String)', 'MapString': 'Map(String, String)', 'StringN': 'String?', 'Sx': 'Sx', 'ARed': 'ARed',
+             'APlain': 'APlain'}
+
+
+def annot_specs(vec):
+    site, ty, anns = vec['site'], ANN_TYPES[vec['ty']], [vec['a1']] + ([vec['a2']] if vec['a2'] != 'none' else [])
+
+    def tags(indent):
+        return [' ' * indent + '@' + a for a in anns]
+    a = ['namespace nsa', '', 'import nsb', '',
+         'annotation Om = Omitted("a")', 'annotation Om2 = Omitted("b")', 'annotation Dep = Deprecated()',
+         'annotation Prev = Preview()', 'annotation Blot = RedactedBlot()', 'annotation Hash = RedactedHash()', '',
+         'annotation_type Note', '    importance String = "low"', '',
+         'annotation Cust = Note()', 'annotation CustKw = Note(importance="x")', '',
+         'struct Sx', '    x Int32', '', 'alias ARed = String', '    @Blot', '', 'alias APlain = String', '']
+    if site == 'alias':
+        a += ['alias Target = %s' % ty] + tags(4) + ['', 'struct Holder', '    h Target?', '']
+    elif site == 'field':
+        a += ['struct Holder', '    h %s' % ty] + tags(8) + ['']
+    else:
+        a += ['union Holder', '    v', '    h %s' % ty] + tags(8) + ['']
+    return [('nsa.stone', '\n'.join(a)),
+            ('nsb.stone', 'namespace nsb\n\nannotation Fo = Omitted("f")\n'),
+            ('nsc.stone', 'namespace nsc\n\nannotation Nc = Deprecated()\n')]
+
+
 class LitJudge(Judge):
     """params: {'prop': 'C01'|'C03'}"""
 
@@ -107,6 +134,11 @@ class LitJudge(Judge):
         elif mode == 'docref':
             specs = docref_specs(obj)
             what = 'doc reference :%s:`%s` in the docstring of a %s' % (obj['tag'], payload_text(obj['p']), obj['site'])
+        elif mode == 'annot':
+            specs = annot_specs(obj)
+            what = 'annotation(s) %s on %s of type %s' % (
+                ' '.join('@' + x for x in [obj['a1']] + ([obj['a2']] if obj['a2'] != 'none' else [])),
+                {'field': 'a struct field', 'tag': 'a union member', 'alias': 'an alias definition'}[obj['site']], ANN_TYPES[obj['ty']])
         else:
             return
         self.judged += 1
